@@ -353,6 +353,88 @@ func runC20(r *Result, thorough bool) {
 	}
 	r.Compare(c)
 	c20SlowApp(r, rng)
+	c20FailingApp(r, rng)
+}
+
+// failingHandler: an application whose CommitHandler reports an error for the first failFirst calls
+// it receives for a block (a transient fault), then answers normally
+type failingHandler struct {
+	recHandler
+	failFirst map[int]int // block index -> remaining failures
+	calls     map[int]int // handler invocations per block index
+	byIndex   map[int]proxy.CommitResponse
+	lock      sync.Mutex
+}
+
+func (h *failingHandler) CommitHandler(b hg.Block) (proxy.CommitResponse, error) {
+	h.lock.Lock()
+	h.calls[b.Index()]++
+	fail := h.failFirst[b.Index()] > 0
+	if fail {
+		h.failFirst[b.Index()]--
+	}
+	h.lock.Unlock()
+	if fail {
+		return proxy.CommitResponse{}, fmt.Errorf("application: transient failure on block %d", b.Index())
+	}
+	resp, err := h.recHandler.CommitHandler(b)
+	h.lock.Lock()
+	h.byIndex[b.Index()] = resp
+	h.lock.Unlock()
+	return resp, err
+}
+
+// c20FailingApp: the application's commit handler fails 0..4 times for a block. Through the socket
+// proxy the call must behave like the retry loop of the model (each attempt reaches the handler;
+// success iff one of the first `retries` attempts succeeds, with that attempt's answer) and must
+// never return a success the application did not produce.
+func c20FailingApp(r *Result, rng *rand.Rand) {
+	timeout := 500 * time.Millisecond
+	h := &failingHandler{recHandler: recHandler{snapshots: map[int][]byte{}, rng: rand.New(rand.NewSource(r.Seed + 11))},
+		failFirst: map[int]int{}, calls: map[int]int{}, byIndex: map[int]proxy.CommitResponse{}}
+	appAddr, babbleAddr := freePort(), freePort()
+	ap, err := aproxy.NewSocketAppProxy(appAddr, babbleAddr, timeout, quiet())
+	if err != nil {
+		r.Inc("failing_app_setup_failed", 1)
+		return
+	}
+	if _, err := bproxy.NewSocketBabbleProxy(babbleAddr, appAddr, h, timeout, quiet()); err != nil {
+		r.Inc("failing_app_setup_failed", 1)
+		return
+	}
+	c := &Case{ID: "failing-app"}
+	for k := 0; k < 10; k++ {
+		blk := randomBlock(rng, 5000+k)
+		nf := []int{0, 1, 2, 3, 4, 1, 1, 2, 0, 3}[k]
+		h.lock.Lock()
+		h.failFirst[blk.Index()] = nf
+		h.lock.Unlock()
+		resp, err := ap.CommitBlock(blk)
+		r.Inc("failing_app_calls", 1)
+		r.Inc(fmt.Sprintf("failing_app_handler_failures_%d", nf), 1)
+		h.lock.Lock()
+		want, ok := h.byIndex[blk.Index()]
+		made := h.calls[blk.Index()]
+		h.lock.Unlock()
+		atts := []string{}
+		for i := 0; i < nf; i++ {
+			atts = append(atts, "callFail")
+		}
+		atts = append(atts, "ok")
+		obs := fmt.Sprintf("O error attempts=%d", made)
+		if err == nil {
+			obs = fmt.Sprintf("O success attempts=%d", made)
+			if len(resp.StateHash) == 0 || !ok || !bytes.Equal(resp.StateHash, want.StateHash) || len(resp.InternalTransactionReceipts) != len(want.InternalTransactionReceipts) {
+				r.Violate("impl-violation", fmt.Sprintf("failing application (block %d, handler fails %d times): CommitBlock returned success with state hash %x and %d receipts; the application produced %x (answered: %v)", blk.Index(), nf, resp.StateHash, len(resp.InternalTransactionReceipts), want.StateHash, ok),
+					"failing-app-empty-success", map[string]int{"block": blk.Index(), "handler_failures": nf})
+			}
+		} else {
+			r.Inc("failing_app_call_errors", 1)
+		}
+		c.Op(fmt.Sprintf("PX call %s", joinComma2(atts)), obs)
+	}
+	r.Count(c.Canon(), true)
+	r.Compare(c)
 }
 
 // slowHandler: an application whose first answers are slower than the proxy's timeout
